@@ -192,8 +192,10 @@ func init() {
 	})
 	// ---- profiles
 	addCodec(&codec{name: "profiles", signal: "profiles", wrap: "root",
-		gen:     func(t *rapid.T, o pgen.Opts) any { return pgen.Profiles(t, o) },
-		encP:    func(v any) ([]byte, error) { return (&pprofile.ProtoMarshaler{}).MarshalProfiles(v.(pprofile.Profiles)) },
+		gen: func(t *rapid.T, o pgen.Opts) any { return pgen.Profiles(t, o) },
+		encP: func(v any) ([]byte, error) {
+			return (&pprofile.ProtoMarshaler{}).MarshalProfiles(v.(pprofile.Profiles))
+		},
 		decP:    func(b []byte) (any, error) { return (&pprofile.ProtoUnmarshaler{}).UnmarshalProfiles(b) },
 		encJ:    func(v any) ([]byte, error) { return (&pprofile.JSONMarshaler{}).MarshalProfiles(v.(pprofile.Profiles)) },
 		decJ:    func(b []byte) (any, error) { return (&pprofile.JSONUnmarshaler{}).UnmarshalProfiles(b) },
